@@ -2669,7 +2669,8 @@ fn main() {
                             for rel in 0..4usize {
                                 mx_combo += 1;
                                 let (a, b, relname) = mx_pair(&mut rng, rel, form);
-                                if small && (mx_combo + round) % 4 != 0 {
+                                // a quarter of the cases, the operand relation rotating with the (context, form) pair
+                                if small && (mx_combo / 4 + rel + round) % 4 != 0 {
                                     continue;
                                 }
                                 let s = mx_source(ctx, form, a, b);
